@@ -114,6 +114,17 @@ Theorem C17_drape_n_centroids : forall prisms bottoms,
 Proof. exact drape_n_centroids. Qed.
 Print Assumptions C17_drape_n_centroids.
 
+(* ... and the centre of layer l of prism p is (x_p, y_p, (top + bottom)/2), top = prism top for its first layer, the
+   bottom of the layer above otherwise *)
+Theorem C17_drape_centroid : forall prisms bottoms pi p l bot,
+  drape_wf 0 prisms -> drape_total prisms = length bottoms ->
+  nth_error prisms pi = Some p -> l < pcount p -> nth_error bottoms (pfirst p + l) = Some bot ->
+  exists cs top, drape_centroids prisms bottoms = Ok cs
+    /\ match l with O => top = ptop p | S l' => nth_error bottoms (pfirst p + l') = Some top end
+    /\ nth_error cs (pfirst p + l) = Some (px p, py p, ((top + bot) / 2)%Q).
+Proof. exact drape_centroid_nth. Qed.
+Print Assumptions C17_drape_centroid.
+
 Example C17_drape_nonvacuous :
   let prisms := [ {| px := 0; py := 0; ptop := 0; pfirst := 0; pcount := 2 |};
                   {| px := 1; py := 0; ptop := 1 # 2; pfirst := 2; pcount := 3 |} ]%Q in
